@@ -33,6 +33,7 @@ package backends
 //@   safety slice index
 //@   site call copy WHOLEDATAGRAM: [C02] requires len(arg0) == n && ref(arg1) == ref(buf) && n == lastcall("ReadFromUDP", 0) && lastcall("ReadFromUDP", 2) == nil
 //@   site block * EXITS: [C17] requires waits(ctxdone(ctx))
+//@   site block * NOLOCKHELD: [C17] requires nolocksheld()
 //@   loop for
 //@     invariant BUF: len(buf) == 65536 && buf != nil
 
